@@ -180,7 +180,11 @@ func (g *gen) propVal(self int, depth int) Val {
 		return Val{Kind: "int", Int: g.num(), Optional: true}
 	case 9:
 		if depth < 2 && g.chance(1, 2, "arrobj") {
-			return Val{Kind: "arrobj", Obj: g.obj(self, depth+1, g.chance(1, 2, "arrobjAllOf"))}
+			v := Val{Kind: "arrobj", Obj: g.obj(self, depth+1, g.chance(1, 2, "arrobjAllOf"))}
+			if g.chance(1, 3, "arrWrap") {
+				v.Wrap = 1 + g.intn(2, "arrWrapN")
+			}
+			return v
 		}
 	}
 	return Val{Kind: "int", Int: g.num()}
@@ -266,6 +270,27 @@ func (g *gen) flatObj(keys ...string) *Schema {
 	return &Schema{Notation: "jsight", Root: "obj", Obj: o}
 }
 
+// headers: a flat object, sometimes inheriting from an object type.
+func (g *gen) headers() *Schema {
+	s := g.flatObj(fmt.Sprintf("H%d", g.num()))
+	num, den := 1, 4
+	if g.o.Inheritance {
+		num, den = 2, 3
+	}
+	if g.chance(num, den, "headersAllOf") {
+		var bases []genType
+		for _, t := range g.types {
+			if t.kind == "obj" {
+				bases = append(bases, t)
+			}
+		}
+		if len(bases) > 0 {
+			s.Obj.AllOf = []string{bases[g.intn(len(bases), "hb")].name}
+		}
+	}
+	return s
+}
+
 // bodySchema draws the body specification of a request / response / Body.
 func (g *gen) bodySchema() *Schema {
 	switch g.intn(8, "bodyKind") {
@@ -305,7 +330,7 @@ func (g *gen) response(code string) *Dir {
 	if g.chance(1, 4, "respChildBody") {
 		if g.chance(1, 2, "respHeaders") {
 			h := g.newDir("Headers")
-			h.Schema = g.flatObj(fmt.Sprintf("H%d", g.num()))
+			h.Schema = g.headers()
 			d.Children = append(d.Children, h)
 		}
 		b := g.newDir("Body")
@@ -316,7 +341,7 @@ func (g *gen) response(code string) *Dir {
 	d.Schema = g.bodySchema()
 	if g.chance(1, 5, "respHeadersOnly") {
 		h := g.newDir("Headers")
-		h.Schema = g.flatObj(fmt.Sprintf("H%d", g.num()))
+		h.Schema = g.headers()
 		d.Children = append(d.Children, h)
 	}
 	return d
@@ -327,7 +352,7 @@ func (g *gen) request() *Dir {
 	if g.chance(1, 3, "reqChildBody") {
 		if g.chance(1, 2, "reqHeaders") {
 			h := g.newDir("Headers")
-			h.Schema = g.flatObj(fmt.Sprintf("H%d", g.num()))
+			h.Schema = g.headers()
 			d.Children = append(d.Children, h)
 		}
 		b := g.newDir("Body")
